@@ -35,7 +35,8 @@ Layouts ==
   [ r1 |-> [codes |-> {200, 201, 404}, default |-> TRUE],
     r2 |-> [codes |-> {201, 400},      default |-> FALSE],
     r3 |-> [codes |-> {},              default |-> TRUE],
-    r4 |-> [codes |-> {204},           default |-> FALSE] ]
+    r4 |-> [codes |-> {204},           default |-> FALSE],
+    r5 |-> [codes |-> {404},           default |-> FALSE] ]      \* only an error response is declared
 ScriptCodes(L) == Layouts[L].codes \cup {299, 302, 418, 500}
 
 IsSuccess(code) == code >= 200 /\ code <= 299
@@ -60,7 +61,8 @@ RespSpec ==
             r404 |-> [description |-> "nf", schema |-> MsgSchema], default |-> [description |-> "err", schema |-> MsgSchema]],
     r2 |-> [r201 |-> [description |-> "created"], r400 |-> [description |-> "bad", schema |-> [type |-> "string"]]],
     r3 |-> [default |-> [description |-> "any", schema |-> ObjSchema]],
-    r4 |-> [r204 |-> [description |-> "nc"]] ]
+    r4 |-> [r204 |-> [description |-> "nc"]],
+    r5 |-> [r404 |-> [description |-> "nf", schema |-> MsgSchema]] ]
 
 ObjPayload == Obj([a |-> Str("ab"), n |-> Num(6)])
 MsgPayload == Obj([msg |-> Str("abc")])
@@ -70,6 +72,7 @@ PayloadOf(L, code) ==
     [] L = "r1" /\ code \notin {200, 201, 404} -> MsgPayload       \* default
     [] L = "r2" /\ code = 400 -> Str("abc")
     [] L = "r3" -> ObjPayload                                        \* default
+    [] L = "r5" /\ code = 404 -> MsgPayload
     [] OTHER -> Null
 HeadersOf(L, code) ==
   IF L = "r1" /\ code = 200
